@@ -122,12 +122,12 @@ func runC18(c *fw.Ctx) {
 	pins := [][]any{{-3, -1, -2}, {-2.5, -7, -0.5}, {-4}, {-1.25}, {math.MaxInt, 1}, {math.MaxInt, 2.5, math.MaxInt}, {math.MinInt, -1.0, math.MinInt}, {1.0, 4, 5.0}, {0, 5, 5, 10},
 		{7}, {7.5}, {0}, {0.0}, {math.MaxInt}, {math.MinInt}, {3, 3.0}, {1e300, 1e300}, {-1, 1}, {0.1, 0.2, 0.3}, {2, 0.5}, {5, -5.0, 5}}
 	c.Cases("pinned", len(pins), true, func(i int, r *rng.R) { c18Numeric(c, pins[i], 1) })
-	c.Cases("numeric", c.N(3000, 200000), false, func(i int, r *rng.R) {
+	c.Cases("numeric", c.N(3000, 2000000), false, func(i int, r *rng.R) {
 		vals, class := genNumeric(r)
 		c18Numeric(c, vals, class)
 	})
 	// Int* family on arbitrary lists (non-int elements interleaved), and the no-qualifying-element results
-	c.Cases("int-family", c.N(2000, 100000), false, func(i int, r *rng.R) {
+	c.Cases("int-family", c.N(2000, 1000000), false, func(i int, r *rng.R) {
 		n := []int{0, 1, 2, 5, 9, r.Range(0, 20)}[r.Intn(6)]
 		vals := make([]any, n)
 		noInts := r.Chance(1, 6)
